@@ -1023,9 +1023,13 @@ class Models(object):
 
     def np_stack(self, tup, axis=0):
         arrs = [self.np_asarray(x) for x in tup]
+        r = asarr(list(arrs)).copy()
+        axis = _int_arg(axis)
+        if axis < 0:
+            axis += r.ndim
         if axis != 0:
-            raise AnalysisError('np.stack axis != 0')
-        return asarr(list(arrs)).copy()
+            r = self.np_moveaxis(r, 0, axis)
+        return r
 
     def np_concatenate(self, tup, axis=0):
         arrs = [self.np_asarray(x) for x in tup]
@@ -1183,7 +1187,8 @@ class Models(object):
         return Arr((len(out),), out)
 
     def np_any(self, a, axis=None, **kw):
-        _only(kw, (), 'np.any')
+        _only(kw, ('keepdims',), 'np.any')
+        keep_ = kw.get('keepdims')
         def f(items):
             pend = []
             for v in items:
@@ -1194,10 +1199,12 @@ class Models(object):
                 elif v is True or (not isinstance(v, bool) and _truthy(v)):
                     return True
             return Unk(('any', pend)) if pend else False
-        return self._reduce(a, axis, f, 'any', empty=False)
+        r = self._reduce(a, axis, f, 'any', empty=False)
+        return _keepdims(r, a, axis) if keep_ else r
 
     def np_all(self, a, axis=None, **kw):
-        _only(kw, (), 'np.all')
+        _only(kw, ('keepdims',), 'np.all')
+        keep_ = kw.get('keepdims')
         def f(items):
             pend = []
             for v in items:
@@ -1208,7 +1215,8 @@ class Models(object):
                 elif v is False or (not isinstance(v, bool) and not _truthy(v)):
                     return False
             return Unk(('all', pend)) if pend else True
-        return self._reduce(a, axis, f, 'all', empty=True)
+        r = self._reduce(a, axis, f, 'all', empty=True)
+        return _keepdims(r, a, axis) if keep_ else r
 
     def _extreme(self, which, name):
         def red(items):
